@@ -1152,15 +1152,15 @@ func TestCheck(t *testing.T) {
 			}
 			return fmt.Sprintf("%d,%d,%s,%d", w, h, kind, rapid.Uint64().Draw(t, "mseed"))
 		}
-		run("matrix_QR", c.N(700, 8000), func(t *rapid.T) (Case, string) {
+		run("matrix_QR", c.N(700, 24000), func(t *rapid.T) (Case, string) {
 			m := genMatrix(t, "QR")
 			return Case{Family: "qrmatrix", Matrix: m, Hints: genHints(t)}, "matrix=" + strings.Split(m, ",")[2]
 		})
-		run("matrix_DM", c.N(700, 8000), func(t *rapid.T) (Case, string) {
+		run("matrix_DM", c.N(700, 24000), func(t *rapid.T) (Case, string) {
 			m := genMatrix(t, "DM")
 			return Case{Family: "dmmatrix", Matrix: m}, "matrix=" + strings.Split(m, ",")[2]
 		})
-		run("matrix_AZTEC", c.N(500, 6000), func(t *rapid.T) (Case, string) {
+		run("matrix_AZTEC", c.N(500, 18000), func(t *rapid.T) (Case, string) {
 			compact := rapid.Bool().Draw(t, "compact")
 			layers := rapid.IntRange(1, 32).Draw(t, "layers")
 			maxBlocks := 2048
@@ -1188,11 +1188,11 @@ func TestCheck(t *testing.T) {
 			return Case{Family: "azmatrix", Matrix: m, Az: []int{cz, layers, rapid.IntRange(1, maxBlocks).Draw(t, "blocks")}}, fmt.Sprintf("compact=%v", compact)
 		})
 		// (iii) bit-stream parsers
-		run("stream_QR", c.N(2500, 30000), func(t *rapid.T) (Case, string) {
+		run("stream_QR", c.N(2500, 90000), func(t *rapid.T) (Case, string) {
 			v := rapid.SampledFrom([]int{1, 5, 9, 10, 20, 26, 27, 33, 40}).Draw(t, "v")
 			return Case{Family: "qrstream", Bytes: genQRStream(t, v), Version: v, Level: rapid.IntRange(0, 3).Draw(t, "lv"), Hints: genHints(t)}, ""
 		})
-		run("stream_DM", c.N(2500, 30000), func(t *rapid.T) (Case, string) {
+		run("stream_DM", c.N(2500, 90000), func(t *rapid.T) (Case, string) {
 			n := rapid.IntRange(0, 60).Draw(t, "n")
 			b := make([]byte, n)
 			mode := rapid.IntRange(0, 3).Draw(t, "bmode")
@@ -1212,7 +1212,7 @@ func TestCheck(t *testing.T) {
 			}
 			return Case{Family: "dmstream", Bytes: b}, fmt.Sprintf("mode=%d", mode)
 		})
-		run("bits_AZTEC", c.N(2500, 30000), func(t *rapid.T) (Case, string) {
+		run("bits_AZTEC", c.N(2500, 90000), func(t *rapid.T) (Case, string) {
 			n := rapid.IntRange(0, 400).Draw(t, "n")
 			if rapid.IntRange(0, 3).Draw(t, "tiny") == 0 {
 				n = rapid.IntRange(0, 12).Draw(t, "ntiny")
